@@ -127,6 +127,8 @@ type cEvent struct {
 	Pix  [][]uint16
 	Tel  zz.Tel
 	ID   int
+	// the camera daemon stalls after StallAt bytes of this frame for StallMs of simulated time (0: no stall)
+	StallAt, StallMs int
 }
 
 type cConn struct {
@@ -563,6 +565,14 @@ func genConn(r *verifsim.Run, focus string, cfg cCfg, firstID int) *cConn {
 		}
 	}
 	fs := c.frameSize()
+	if r.Chance(1, 4) {
+		for i := range cn.Ev {
+			if (cn.Ev[i].Kind == 'F' || cn.Ev[i].Kind == 'B') && r.Chance(1, 20) {
+				cn.Ev[i].StallAt = r.OneOf(1, 2, 3, 4, 5, r.Range(1, fs-1))
+				cn.Ev[i].StallMs = r.OneOf(300, 2500, 12000)
+			}
+		}
+	}
 	for i, k := 0, r.Range(1, 12); i < k; i++ {
 		cn.Chunks = append(cn.Chunks, r.OneOf(1, 2, 3, 4, 5, 6, 7, fs-1, fs, fs+1, fs+5, 2*fs, 3*fs+2, r.Range(1, 4*fs)))
 	}
@@ -914,6 +924,16 @@ func cameraPlain(cn *cConn, conn net.Conn) {
 			raw := cn.rawFrame(e)
 			if i == lastFrame && cn.CutAt >= 0 {
 				raw = raw[:cn.CutAt]
+			}
+			if e.StallAt > 0 && e.StallAt < len(raw) {
+				// a partial write, then silence for a while, then the rest
+				pending = append(pending, raw[:e.StallAt]...)
+				if !flush(true) {
+					return
+				}
+				time.Sleep(owed + time.Duration(e.StallMs)*time.Millisecond)
+				owed = 0
+				raw = raw[e.StallAt:]
 			}
 			pending = append(pending, raw...)
 			owed += period
@@ -2332,6 +2352,24 @@ func attributeRecordingRules(r *verifsim.Run, sc *cScenario, exp []refRec, act [
 			}
 			seen[id] = true
 		}
+	}
+	// tiling (C01): where the settings and the stream call for a recording that begins right after the
+	// previous one ended, the file that ends like it must begin there too
+	var prevExp *refRec
+	for i := range exp {
+		e := &exp[i]
+		if e.Sink != 0 || len(e.IDs) == 0 {
+			continue
+		}
+		if prevExp != nil && ord[e.IDs[0]] == ord[prevExp.IDs[len(prevExp.IDs)-1]]+1 {
+			for _, f := range motionFiles {
+				if f[len(f)-1] == e.IDs[len(e.IDs)-1] && f[0] != e.IDs[0] && ord[f[0]] > ord[e.IDs[0]] {
+					r.Violate("C01", "C01.tile", "file:loss", "the recording ending with frame id %d begins with frame id %d although the previous recording ended with frame id %d: the frames in between are in no recording", f[len(f)-1], f[0], prevExp.IDs[len(prevExp.IDs)-1])
+					return
+				}
+			}
+		}
+		prevExp = e
 	}
 	for _, e := range exp {
 		if e.Sink != 0 || len(e.IDs) == 0 {
